@@ -35,7 +35,7 @@ ASSUMPTIONS = [
     "every operation works on its own files, so a fix in operation j cannot legitimately change the input of operation k",
 ]
 CHAINS_ENABLED = True
-PROBES = ["shape:plugin-dirs", "shape:dirty-chain", "dirty_chain_faults_fired", "shape:chain", "history_cli_multi_invocation", "history_api_reuse", "history_with_fault", "multi_file_op", "carrier_pair_same_group", "extension_toggled", "api_after_exception"]
+PROBES = ["shape:after-failed-fix", "shape:plugin-dirs", "shape:dirty-chain", "dirty_chain_faults_fired", "shape:chain", "history_cli_multi_invocation", "history_api_reuse", "history_with_fault", "multi_file_op", "carrier_pair_same_group", "extension_toggled", "api_after_exception"]
 
 
 
@@ -231,6 +231,58 @@ def chain_count(tier):
     return len(_PLAN_CACHE[tier])
 
 
+def _gen_after_failed_fix(rng):
+    """One API object (or several CLI invocations in one process): a fix that fails in
+    the middle of rebuilding a document, then fixes of documents that need token-level
+    fixes.  The later results must not depend on the failed one."""
+    from .. import corpus
+
+    docs = corpus.load()
+    followers = ["h_spaces", "ul_indent_bad", "ol_space2", "ul_space2", "h_skip", "fence_tilde", "ul_mixed", "h_setext_indented"]
+    ops = []
+    use_api = rng.random() < 0.6
+    sequence = [rng.choice(followers), "nat_regen_fail"] + [rng.choice(followers) for _ in range(rng.choice([1, 2]))]
+    if rng.random() < 0.5:
+        sequence = sequence[1:]
+    first_api = True
+    for k, doc_name in enumerate(sequence):
+        name = "o%d/a.md" % k
+        data = docs[doc_name].data
+        if use_api:
+            if rng.random() < 0.5 and doc_name != "nat_regen_fail":
+                call = ["fix_string", [data.decode("utf-8")], {}]
+                files = {}
+            else:
+                call = ["fix_path", [name], {}]
+                files = {name: data}
+            ops.append(
+                {
+                    "kind": "api-" + call[0],
+                    "mode": "fix",
+                    "files": workload.files_to_spec(files),
+                    "docs": sorted(files),
+                    "labels": {name: doc_name} if files else {"<string>": doc_name},
+                    "build": [],
+                    "op": {"kind": "api", "new": first_api, "build": [], "call": call},
+                }
+            )
+            first_api = False
+        else:
+            ops.append(
+                {
+                    "kind": "cli-fix",
+                    "mode": "fix",
+                    "flags": [],
+                    "coe": False,
+                    "files": workload.files_to_spec({name: data}),
+                    "docs": [name],
+                    "labels": {name: doc_name},
+                    "op": {"kind": "cli", "argv": ["fix", name]},
+                }
+            )
+    return {"cls": workload.draw_class(rng), "world": workload.draw_world(rng), "shape": "after-failed-fix", "group": None, "ops": ops, "plan": []}
+
+
 def _gen_plugin_dirs(rng):
     """Two invocations in one process that load rule plugins from two directories which
     both contain a module of the same name (with different behaviour): the second
@@ -268,6 +320,8 @@ def generate(rng, tier, index):
         return _gen_chain(tier, plain + chain_index if chain_index < dirty else chain_index - dirty)
     if rng.random() < 0.04:
         return _gen_plugin_dirs(rng)
+    if rng.random() < 0.06:
+        return _gen_after_failed_fix(rng)
     shape = rng.choice(["single-multi", "cli-seq", "cli-seq", "api-seq", "api-seq", "mixed"])
     group = workload.draw_group(rng) if rng.random() < 0.7 else None
     ops = []
@@ -429,6 +483,12 @@ def evaluate(sc):
             continue
         want = alone["result"]["ops"][0] if alone is not history else got
         got_sig, want_sig = _op_signature(got), _op_signature(want)
+        if op["kind"].startswith("api"):
+            # an API call returns its results; what appears on the process's stdout/stderr
+            # is log output (WARNING by default), which follows the FIRST stream the logging
+            # system was bound to - diagnostics, not compared
+            for signature in (got_sig, want_sig):
+                signature["stdout"], signature["stderr"] = "", ""
         if got_sig != want_sig:
             field = next(k for k in ("exit", "exc", "api", "stdout", "stderr") if got_sig[k] != want_sig[k])
             out.append(
